@@ -21,6 +21,103 @@ import os
 import sys
 
 
+def _instrument_coordinator(build, path: str, seed) -> None:
+    """Log the coordinator's scheduling events of a parallel build (and, with a seed, make the arbitrary
+    choice of the free worker seed-dependent).  Events, one per line:
+        G <topo index>:<dep indices>;...     the SCC graph (once)
+        N <topo index>:<module ids>          names
+        F<i>  S<i+i+..>@<w>  I<w>:<i+..>  M<w>
+    """
+    import random
+    ev: list[str] = []
+    state = {"graph_done": False, "idx": None, "index": {}}
+
+    def flush():
+        with open(path, "w") as f:
+            f.write("\n".join(ev) + "\n")
+
+    def ensure_graph(manager):
+        if state["graph_done"] or not getattr(manager, "top_order", None):
+            return
+        order = list(manager.top_order)
+        state["index"] = {sid: i for i, sid in enumerate(order)}
+        rows = []
+        for sid in order:
+            scc = manager.scc_by_id[sid]
+            rows.append(f"{state['index'][sid]}:" + ",".join(str(state["index"][d]) for d in sorted(scc.deps, key=lambda d: state["index"][d])))
+            ev.append(f"N {state['index'][sid]}:" + ",".join(sorted(scc.mod_ids)))
+        ev.insert(0, "G " + ";".join(rows))
+        state["graph_done"] = True
+
+    orig_find = build.find_stale_sccs
+
+    def find_stale_sccs(sccs, graph, manager):
+        ensure_graph(manager)
+        stale, fresh = orig_find(sccs, graph, manager)
+        for scc in fresh:
+            ev.append(f"F{state['index'][scc.id]}")
+        if not manager.workers:
+            for scc in stale:           # in-process processing: the coordinator itself computes the SCC
+                ev.append(f"F{state['index'][scc.id]}")
+        flush()
+        return stale, fresh
+    build.find_stale_sccs = find_stale_sccs
+
+    orig_send = build.send
+
+    def send(conn, msg, *a, **k):
+        if type(msg).__name__ == "SccRequestMessage" and getattr(msg, "scc_ids", None):
+            man = state.get("manager")
+            w = "?"
+            if man is not None:
+                for i, wk in enumerate(man.workers):
+                    if wk.conn is conn:
+                        w = i
+            ev.append("S" + "+".join(str(state["index"][s]) for s in msg.scc_ids) + f"@{w}")
+            flush()
+        return orig_send(conn, msg, *a, **k)
+    build.send = send
+
+    BM = build.BuildManager
+    orig_recv = BM.receive_worker_message
+
+    def receive_worker_message(self, idx):
+        state["idx"] = idx
+        state["manager"] = self
+        return orig_recv(self, idx)
+    BM.receive_worker_message = receive_worker_message
+    orig_submit = BM.submit_to_workers
+
+    def submit_to_workers(self, graph, sccs=None):
+        state["manager"] = self
+        ensure_graph(self)
+        if seed is not None and not isinstance(self.free_workers, _RandSet):
+            self.free_workers = _RandSet(self.free_workers, random.Random(f"fw:{seed}"))
+        return orig_submit(self, graph, sccs)
+    BM.submit_to_workers = submit_to_workers
+
+    orig_read = build.SccResponseMessage.read.__func__
+
+    def read(cls, buf):
+        data = orig_read(cls, buf)
+        ids = "+".join(str(state["index"].get(s, s)) for s in data.scc_ids)
+        ev.append((f"I{state['idx']}:" if data.is_interface else f"M{state['idx']}:") + ids)
+        flush()
+        return data
+    build.SccResponseMessage.read = classmethod(read)
+
+
+class _RandSet(set):
+    def __init__(self, it, rng):
+        super().__init__(it)
+        self._rng = rng
+
+    def pop(self):
+        x = self._rng.choice(sorted(self))
+        self.remove(x)
+        return x
+
+
 def main() -> None:
     spec = json.load(open(sys.argv[1]))
     oplog = spec.get("oplog")
@@ -78,6 +175,10 @@ def main() -> None:
         except Exception as e:  # observation must never change the outcome
             info["observe_error"] = repr(e)
         return res
+
+    sched_log = spec.get("sched_log")
+    if sched_log:
+        _instrument_coordinator(build, sched_log, spec.get("sched_seed"))
 
     build.build = recording_build
     if hasattr(mmain, "build") and getattr(mmain.build, "build", None) is orig_build:
